@@ -28,14 +28,19 @@ static Verdict analyse(const std::string& xta)
     return v;
 }
 
-struct Parts { std::string gdecl_before, gdecl_after, ldecl, inv, guard, update, system; };
+struct Parts { std::string gdecl_before, gdecl_after, ldecl, inv, guard, update, system; int form = 0; };   // form: how the carrier reaches the system line
 static std::string render(const Parts& p, bool instantiated)
 {
     std::string s = p.gdecl_before + "clock x; hybrid clock h; double d = 1.5; int i; broadcast chan bc;\n" + p.gdecl_after;
-    s += "process T() {\n" + p.ldecl + " state A" + (p.inv.empty() ? "" : " { " + p.inv + " }") + ", B;\n init A;\n trans A -> B {" +
+    // form 0: T() listed directly; 1: T(const int[0,1] id) listed as a process set; 2: T(const int[0,1] id) through a partial instantiation that leaves id open; 3: fully bound instance
+    s += std::string("process T(") + (p.form ? "const int[0,1] id" : "") + ") {\n" + p.ldecl + " state A" + (p.inv.empty() ? "" : " { " + p.inv + " }") + ", B;\n init A;\n trans A -> B {" +
          (p.guard.empty() ? "" : " guard " + p.guard + ";") + (p.update.empty() ? "" : " assign " + p.update + ";") + " };\n}\n";
     s += "process Other() { state S; init S; }\n";
-    if (!p.system.empty()) s += p.system; else s += instantiated ? "system Other, T;\n" : "system Other;\n";
+    if (!p.system.empty()) s += p.system;
+    else if (!instantiated) s += "system Other;\n";
+    else if (p.form == 2) s += "H(const int[0,1] b) = T(b);\nsystem Other, H;\n";
+    else if (p.form == 3) s += "T0 = T(1);\nsystem Other, T0;\n";
+    else s += "system Other, T;\n";
     return s;
 }
 // conjunction of n conjuncts with `feat` at position pos, the others from FILL (a symbolic filler choice for one of them)
@@ -49,20 +54,21 @@ static std::string conj(int n, int pos, const std::string& feat, int filler, boo
     return s;
 }
 
-extern "C" void harness_features()  /* vf: bounds=8_restricting_features_x_placements(guard/invariant,1_or_3_conjuncts,conjunct_position,operand_order,6_relational_operators,update_list_position_0..2,global/local_declaration,declaration_order,rate_values)_x_carrier_instantiated_or_not reach=end,accepted */
+extern "C" void harness_features()  /* vf: bounds=8_restricting_features_x_placements(guard/invariant,1_or_3_conjuncts,conjunct_position,operand_order,6_relational_operators,update_list_position_0..2,global/local_declaration,declaration_order,rate_values)_x_carrier_instantiated_or_not_x_4_instantiation_forms(direct,process_set,partial_instantiation,bound_instance)_x_5_priority_list_shapes reach=end,accepted */
 {
     int feat = vf_range("!feature", 1, NFEAT - 1), inst = vf_pick("!instantiated", 2);
     Parts p;
+    bool simple = true;   // the instantiation form varies with the simplest placement of each feature only
     bool restricts_symbolic = false, restricts_stochastic = false, restricts_concrete = false, in_template = true;
     switch (feat) {
     case F_CMP_FP: {
-        int place = vf_pick("!place", 2), n = vf_pick("!three_conjuncts", 2) ? 3 : 1, pos = n == 1 ? 0 : vf_pick("!position", 3), swap = vf_pick("!swapped", 2), rel = vf_pick("!rel", 6), form = vf_pick("!fp_form", NFPFORM);
+        int place = vf_pick("!place", 2), n = vf_pick("!three_conjuncts", 2) ? 3 : 1; simple = n == 1; int pos = n == 1 ? 0 : vf_pick("!position", 3), swap = vf_pick("!swapped", 2), rel = vf_pick("!rel", 6), form = vf_pick("!fp_form", NFPFORM);
         static const char* FP[] = {"1.5", "d", "i + 0.5"};
         std::string c = swap ? std::string(FP[form]) + " " + REL[rel] + " x" : std::string("x ") + REL[rel] + " " + FP[form];
         (place ? p.inv : p.guard) = conj(n, pos, c, vf_pick("!filler", NFPFORM), !place);
         restricts_symbolic = true; break; }
     case F_ASSIGN_FP: {
-        int n = vf_pick("!three_updates", 2) ? 3 : 1, pos = n == 1 ? 0 : vf_pick("!position", 3), form = vf_pick("!form", 5);
+        int n = vf_pick("!three_updates", 2) ? 3 : 1; simple = n == 1; int pos = n == 1 ? 0 : vf_pick("!position", 3), form = vf_pick("!form", 5);
         static const char* AS[] = {"x = 1.5", "x = d", "d = 2.5", "d = d + 1.0", "x = i + 0.5"};
         for (int k = 0; k < n; k++) p.update += std::string(k ? ", " : "") + (k == pos ? AS[form] : (k % 2 ? "i = 0" : "x = 0"));
         restricts_symbolic = true; break; }
@@ -72,7 +78,7 @@ extern "C" void harness_features()  /* vf: bounds=8_restricting_features_x_place
         if (local) p.ldecl = (after ? " clock z; " : " ") + dcl + (after ? "" : " clock z;\n"); else { (after ? p.gdecl_after : p.gdecl_before) = dcl; in_template = false; }
         restricts_symbolic = true; break; }
     case F_RATE: {
-        int n = vf_pick("!three_conjuncts", 2) ? 3 : 1, pos = n == 1 ? 0 : vf_pick("!position", 3), swap = vf_pick("!swapped", 2), val = vf_pick("!rate", 6), hyb = vf_pick("!hybrid_clock", 2);
+        int n = vf_pick("!three_conjuncts", 2) ? 3 : 1; simple = n == 1; int pos = n == 1 ? 0 : vf_pick("!position", 3), swap = vf_pick("!swapped", 2), val = vf_pick("!rate", 6), hyb = vf_pick("!hybrid_clock", 2);
         static const char* RV[] = {"0", "1", "2", "3", "1 + 1", "7"};
         std::string clk = hyb ? "h'" : "x'";
         std::string c = swap ? std::string(RV[val]) + " == " + clk : clk + " == " + RV[val];
@@ -84,9 +90,10 @@ extern "C" void harness_features()  /* vf: bounds=8_restricting_features_x_place
         static const char* CH[] = {"chan c;\n", "urgent chan c;\n", "chan c[2];\n", "chan c, c2; broadcast chan b2;\n", "broadcast chan b2; chan c;\n", "typedef chan CT; CT c;\n"};
         if (vf_pick("!local", 2)) p.ldecl = std::string(" ") + CH[kind]; else { (after ? p.gdecl_after : p.gdecl_before) = CH[kind]; in_template = false; }
         restricts_stochastic = true; break; }
-    case F_CHAN_PRIO: p.gdecl_after = "broadcast chan b2;\nchan priority bc < b2;\n"; restricts_stochastic = restricts_concrete = true; in_template = false; break;
-    case F_PROC_PRIO: p.system = inst ? "system Other < T;\n" : "system Other;\n"; restricts_stochastic = restricts_concrete = inst; in_template = false; break;
+    case F_CHAN_PRIO: { static const char* PR[] = {"chan priority bc < b2;\n", "chan priority bc;\n", "chan priority bc, b2;\n", "chan priority default < bc;\n", "chan priority b2, default;\n"}; p.gdecl_after = std::string("broadcast chan b2;\n") + PR[vf_pick("!priority_form", 5)]; } restricts_stochastic = restricts_concrete = true; in_template = false; break;
+    case F_PROC_PRIO: simple = false; p.system = inst ? "system Other < T;\n" : "system Other;\n"; restricts_stochastic = restricts_concrete = inst; in_template = false; break;
     }
+    p.form = (simple && in_template && inst) ? vf_pick("!instantiation_form", 4) : 0;
     Verdict v = analyse(render(p, inst));
     vf_note(FNAME[feat]); vf_note(render(p, inst).c_str()); vf_notei("accepted", v.ok); vf_notei("symbolic", v.sym); vf_notei("stochastic", v.sto); vf_notei("concrete", v.con);
     vf_reach("end");
